@@ -216,3 +216,22 @@ pub fn check_status_received(sim: &Sim, who: &str, want: &StatusSpec, got: &Stat
     }
     check_md_received(sim, who, &want.md, got.metadata());
 }
+
+/// First non-reserved key whose received values (through the typed accessors) differ from what
+/// was attached, if any.
+pub fn md_mismatch(expected: &[MdEntry], got: &MetadataMap) -> Option<String> {
+    let mut keys: Vec<(&str, bool)> = vec![];
+    for e in expected.iter().filter(|e| !e.reserved) {
+        if !keys.contains(&(e.key.as_str(), e.bin)) {
+            keys.push((e.key.as_str(), e.bin));
+        }
+    }
+    for (key, bin) in keys {
+        let want: Vec<&Vec<u8>> = expected.iter().filter(|e| !e.reserved && e.key == key).map(|e| &e.val).collect();
+        let have: Vec<Option<Vec<u8>>> = if bin { got.get_all_bin(key).iter().map(|v| v.to_bytes().ok().map(|b| b.to_vec())).collect() } else { got.get_all(key).iter().map(|v| Some(v.as_bytes().to_vec())).collect() };
+        if have.len() != want.len() || have.iter().zip(want.iter()).any(|(h, w)| h.as_ref() != Some(*w)) {
+            return Some(format!("key {key:?}: attached {} value(s), received {}", want.len(), have.len()));
+        }
+    }
+    None
+}
